@@ -694,7 +694,7 @@ def main(tier, seed, t0):
         # single links once more with a non-quiet run whose taint_data_flow.json is compared with find_flows
         items.extend([("json:" + n, sp) for n, sp in items if not n.startswith(("triple:", "family:"))][:60])
         items.extend(pair_specs(avoid))
-    nsh = common.NCPU * (1 if tier == "quick" else 4)
+    nsh = 16 if tier == "quick" else 64       # fixed: the run must not depend on the number of cores
     per = max(1, (len(items) + nsh - 1) // nsh)
     sw = common.run_shards(sweep_shard, [(items[i:i + per], sorted(avoid)) for i in range(0, len(items), per)])
     sw.notes = [n for n in sw.notes if not n.startswith("sweep-missed:")]
@@ -708,7 +708,7 @@ def main(tier, seed, t0):
     avoid |= a2
     # 3. random chains
     total = 520 if tier == "quick" else 16000
-    nsh = common.NCPU if tier == "quick" else common.NCPU * 4
+    nsh = 16 if tier == "quick" else 64
     per = total // nsh + 1
     args = [(common.shard_seed(seed, i), per, sorted(avoid), combos, uniq) for i in range(nsh)]
     col.merge(common.run_shards(random_shard, args))
